@@ -30,6 +30,21 @@ def correspondence(ctx):
     import corr_history as H
     H.history_stream(rng, 40 if ctx["tier"] == "thorough" else 8, 24, streams, viol, samples,
                      only_calls={"activity_fractions", "mass_fractions", "mole_fractions"}, tag="fractions_after_history")
+    # every nuclide once: the float class's shares against the shares from the exact (high-precision) masses and decay constants
+    import json, os
+    rc, out = C.sh([C.PY, os.path.join(C.TOOLS, "impl_fracsweep.py")], env=C.IMPL_ENV, timeout=1800, cwd="/tmp")
+    line = [l for l in out.splitlines() if l.startswith("{")]
+    if rc != 0 or not line:
+        viol.append({"name": "fracsweep-crash", "found_input": False, "key": "fracsweep-crash", "payload": {"broken": "sweep driver failed", "output": out[-1500:]}})
+    else:
+        sw = json.loads(line[-1])
+        streams["fractions_all_nuclides"] = {"cases": sw["n"], "impl_property_failures": len(sw["bad"]),
+                                             "what": "for every nuclide: Inventory({X: 1e20, K-40: 1e20}, 'num') mass / mole / activity fractions vs the shares from the exact "
+                                                     "(high-precision) atomic masses and decay constants, relative 1e-11 (both classes' data agree nuclide by nuclide)"}
+        for n, k, got, want in sw["bad"][:3]:
+            viol.append({"name": f"fracsweep-{n}-{k}", "found_input": True, "key": f"fracsweep:{n}:{k}",
+                         "payload": {"fails": f"{k} fraction of {n} in Inventory({{'{n}': 1e20, 'K-40': 1e20}}, 'num') is {got}, the share from the exact data is {want}",
+                                     "input": {"contents": {n: 1e20, "K-40": 1e20}, "unit": "num", "kind": k}, "entry": f"Inventory.{k}_fractions"}})
     return {"streams": streams, "violations": viol, "samples": samples}
 
 
